@@ -46,7 +46,7 @@ def run_one(path):
         if r.returncode != 0:
             return {"name": name, "property": prop, "status": "inapplicable", "detail": r.stdout[-300:]}
         env = dict(os.environ, GL_REPO=tmp, GL_CACHE=os.path.join(tmp, ".glcache"))
-        r = subprocess.run([sys.executable, "-m", "glcheck.core", prop, "--tier", "quick", "--no-evidence", "--no-replay-files"],
+        r = subprocess.run([sys.executable, "-m", "glcheck", prop, "--tier", "quick", "--no-evidence", "--no-replay-files"],
                            cwd=VERIF, env=env, stdout=subprocess.PIPE, stderr=subprocess.STDOUT, text=True)
         out = r.stdout
         rules = set(re.findall(r"^  (\w+) ", out, re.M))
